@@ -352,14 +352,14 @@ impl<'a> G<'a>
 
     fn flavour(&mut self) -> Flavour
     {
-        if self.r.chance(self.c.pct_excl) { Flavour::Exclusive }
+        if self.r.chance(self.c.pct_excl) { if self.r.chance(30) { Flavour::ExclusiveWarn } else { Flavour::Exclusive } }
         else if self.r.chance(self.c.pct_fallible) { if self.r.chance(75) { Flavour::FallibleDrop } else { Flavour::FallibleWarn } }
         else { Flavour::Plain }
     }
 
     fn new_inst(&mut self, origin: Origin, depth: u32) -> Inst
     {
-        let flavour = match origin { Origin::Once | Origin::World(_) | Origin::EntityWorld(_) => Flavour::Plain, _ => { let f = self.flavour(); if f == Flavour::FallibleWarn && origin == Origin::On { Flavour::Plain } else { f } } };
+        let flavour = match origin { Origin::Once | Origin::World(_) | Origin::EntityWorld(_) => Flavour::Plain, _ => { let f = self.flavour(); if matches!(f, Flavour::FallibleWarn | Flavour::ExclusiveWarn) && origin == Origin::On { Flavour::Plain } else { f } } };
         let id = self.insts.len() as Inst;
         self.insts.push(InstDef { flavour, origin, scripts: Vec::new() });
         let scripts = self.scripts(Some(id), flavour, depth);
@@ -418,13 +418,13 @@ impl<'a> G<'a>
     fn op(&mut self, me: Option<Inst>, flavour: Flavour, depth: u32) -> Option<Op>
     {
         let mut w = self.c.w;
-        let excl = flavour == Flavour::Exclusive;
+        let excl = matches!(flavour, Flavour::Exclusive | Flavour::ExclusiveWarn);
         if excl
         {
-            for k in [K::Mutate, K::SetIfNeq, K::Noreact, K::Read, K::ResMut, K::ResSetIfNeq, K::ResNoreact, K::ReturnErr] { w[k as usize] = 0; }
+            for k in [K::Mutate, K::SetIfNeq, K::Noreact, K::Read, K::ResMut, K::ResSetIfNeq, K::ResNoreact] { w[k as usize] = 0; }
         }
         else { w[K::Now as usize] = 0; }
-        if !matches!(flavour, Flavour::FallibleDrop | Flavour::FallibleWarn) || me.is_none() { w[K::ReturnErr as usize] = 0; }
+        if !matches!(flavour, Flavour::FallibleDrop | Flavour::FallibleWarn | Flavour::ExclusiveWarn) || me.is_none() { w[K::ReturnErr as usize] = 0; }
         if depth >= 2 || self.created_budget == 0 { w[K::On as usize] = 0; w[K::Once as usize] = 0; }
         if self.wr.is_empty() { w[K::WrAdd as usize] = 0; w[K::WrRemove as usize] = 0; w[K::WrRun as usize] = 0; }
         if self.ewr.is_empty() { w[K::EwrAdd as usize] = 0; w[K::EwrRemove as usize] = 0; }
